@@ -377,10 +377,11 @@ class IntDomain(TagDomain):
 
   def _cls(self, v):
     d = v.d or _E
-    if 'float' in d:
-      return 'float'
+    # both tags = float on one path, user dtype on another (a join)
     if 'mayint' in d:
       return 'mayint'
+    if 'float' in d:
+      return 'float'
     c = v.const()
     if c is not NOCONST:
       if isinstance(c, bool) or isinstance(c, int):
@@ -397,8 +398,14 @@ class IntDomain(TagDomain):
       return frozenset(['mayint'])
     return _E
 
+  def param(self, func, name, index):
+    # arguments of the entry point are user objects like hyper-parameters
+    return frozenset(['hp'])
+
   def hyperparam(self, cls, name, node):
-    return frozenset(['float']) if name in self.hyper_float else _E
+    # 'hp': a hyper-parameter that may be an array-like of any dtype
+    return frozenset(['float']) if name in self.hyper_float \
+        else frozenset(['hp'])
 
   def summary(self, target, args, kwargs, node, st):
     if target.name == '_prepare_inputs' and target.cls is not None:
@@ -467,6 +474,15 @@ class IntDomain(TagDomain):
             _canon('numpy.sqrt'), _canon('numpy.exp'), _canon('numpy.log')):
       self.problems.append(('out= of %s' % dotted, self.site(node),
                             self.cur()))
+    if dotted in (_canon('sklearn.utils.check_array'),
+                  _canon('numpy.asarray'), _canon('numpy.array'),
+                  _canon('numpy.asanyarray')) and args and \
+            'hp' in (args[0].d or _E):
+      # an array-like hyper-parameter converted without a float dtype keeps
+      # the user's (possibly integer) dtype
+      return frozenset(['mayint'])
+    if dotted == _canon('numpy.full') and len(args) >= 2:
+      return self._combine(args[1])
     if dotted in _FLOAT_FUNCS:
       return frozenset(['float'])
     if dotted in _KEEP_FUNCS:
@@ -496,6 +512,13 @@ class IntDomain(TagDomain):
           self._combine(recv)
     return _E
 
+  def on_store_subscript(self, target, idx, val, node, st):
+    if self._cls(target) == 'mayint' and self._cls(val) == 'float' and \
+            isinstance(node, ast.Assign):
+      self.problems.append(('store of a floating-point value into an '
+                            'element', self.site(node), self.cur()))
+    return target.d or _E
+
   def on_augassign(self, kind, target, op, val, node, st):
     tk = self._cls(target)
     vk = self._cls(val)
@@ -515,15 +538,19 @@ class IntDomain(TagDomain):
     return _E
 
 
-def rule_int_safe(repo, rep):
+def rule_int_safe(repo, rep, only=None):
   R = 'DTYPE:integer-data-safe-inplace'
   rep.rule(R, 'no in-place arithmetic (x /= e, x **= e, x op= <float>, '
-           'ufunc(..., out=x)) targets an array whose dtype follows the '
-           'user\'s data (validated without float conversion): numpy raises '
-           'a casting TypeError for integer input, so integer arrays / lists '
-           'of ints would not give the same result as float64 data')
+           'ufunc(..., out=x)) and no store of a floating-point value '
+           'targets an array whose dtype follows the user\'s data or an '
+           'array-like argument / hyper-parameter (validated without float '
+           'conversion): numpy raises a casting TypeError or truncates for '
+           'integer input, so integer arrays / lists of ints would not give '
+           'the same result as float64 data')
   n = 0
   for c in repo.estimators():
+    if only is not None and c.name not in only:
+      continue
     f = repo.resolve_method(c, 'fit')
     init = repo.resolve_method(c, '__init__')
     hf = set()
@@ -547,7 +574,8 @@ def rule_int_safe(repo, rep):
                   % what)
     if not seen:
       rep.derived(R, key, site(f))
-  rep.floor('fit entry points analysed for integer-dtype safety', n, 17)
+  rep.floor('fit entry points analysed for integer-dtype safety', n,
+            17 if only is None else len(only))
 
 
 def check(repo, rep, tier):
